@@ -84,8 +84,10 @@ def main():
     fired = {}
     try:
         if a.returncode == 0:
-            for c in checks:
-                r = sh('cd %s && ./check %s --tier quick --no-write' % (VERIF, c))
+            from concurrent.futures import ThreadPoolExecutor
+            with ThreadPoolExecutor(16) as ex:
+                rs = list(ex.map(lambda c: sh('cd %s && ./check %s --tier quick --no-write' % (VERIF, c)), checks))
+            for c, r in zip(checks, rs):
                 lines = [l for l in r.stdout.splitlines() if l.startswith('FINDING') or l.startswith('ANALYSIS-ERROR')]
                 fired[c] = {'exit': r.returncode, 'lines': [l[:300] for l in lines[:4]]}
     finally:
